@@ -15,7 +15,8 @@ ROOT = os.path.dirname(os.path.dirname(os.path.abspath(__file__)))
 REQUIRED = ["no_loss", "admitted_by_commit", "only_admitted_delivered", "not_admitted_unchanged", "no_call_after_done",
             "no_call_after_done_split", "completed_job_gone", "call_after_done_without_presence_check", "shared_key_witness",
             "delay_monotone", "delay_doubles", "typed_of_filter", "realSubs_are_the_registrations",
-            # TODO-DEEPEN "restart_redelivers", "eventual_delivery", "failed_visible", "parked_witness",
+            "restart_redelivers", "delivered_at_least_once", "eventual_delivery", "eventual_delivery_from_start", "failed_visible",
+            "completed_or_visible", "parked_witness",
             "fact_retry_constants", "fact_retry_arithmetic", "fact_retry_backoff", "fact_notifyNow_retries",
             "fact_run_replays_every_job", "fact_failed_events_threshold", "fact_save_in_write_tx_notify_after_commit",
             "fact_writePayload_skips_stored_payload", "fact_payload_handler_sequence", "fact_registrations"]
